@@ -362,6 +362,23 @@ func newLiveEnv() *liveEnv {
 		case <-time.After(handlerCtxWait):
 		}
 	})
+	// a peer that answers 101 Switching Protocols (nobody asked for an upgrade) and keeps the
+	// connection open: net/http hands the connection itself to the client as the response body
+	mux.HandleFunc("/verif.Svc/Switch101", func(w http.ResponseWriter, req *http.Request) {
+		hj, ok := w.(http.Hijacker)
+		if !ok {
+			w.WriteHeader(500)
+			return
+		}
+		conn, buf, err := hj.Hijack()
+		if err != nil {
+			return
+		}
+		_, _ = buf.WriteString("HTTP/1.1 101 Switching Protocols\r\nConnection: Upgrade\r\nUpgrade: verif/1\r\n\r\n")
+		_ = buf.Flush()
+		time.Sleep(liveWatchdog + 2*time.Second)
+		_ = conn.Close()
+	})
 	e.srv1 = httptest.NewUnstartedServer(mux)
 	e.srv1.Start()
 	e.srv2 = httptest.NewUnstartedServer(mux)
@@ -1148,6 +1165,13 @@ func liveFamily(r *h.Run, rng *h.Rng, fam string, cancelMode bool) {
 			e.liveLocalFailure(r, fam, proto, true)
 			e.liveLocalFailure(r, fam, proto, false)
 		}
+		for pi, proto := range protos {
+			e.liveSwitchingProtocols(r, fam, []string{"unary", "server", "client"}[pi%3], proto)
+			if r.Thorough() {
+				e.liveSwitchingProtocols(r, fam, []string{"server", "client", "unary"}[pi%3], proto)
+				e.liveSwitchingProtocols(r, fam, []string{"client", "unary", "server"}[pi%3], proto)
+			}
+		}
 		for _, proto := range protos {
 			e.liveRejected(r, fam, "bidi", proto, true)
 			e.liveRejected(r, fam, "client", proto, rng.Bool())
@@ -1379,6 +1403,68 @@ func (e *liveEnv) liveStallInEnvelope(r *h.Run, fam, proto string, h2 bool, k in
 		c.r.Fail(h.Failure{Key: "cancel/code/Receive", Family: fam, What: "a Receive blocked inside the next envelope when the context ended returned " + got, Input: c.input(), Expected: want, Actual: got})
 	}
 	c.step("Close", func() error { return st.Close() })
+	r.Sample(fam, c.input())
+}
+
+// liveSwitchingProtocols: the peer answers 101 and keeps the connection open (HTTP/1.1). The
+// call has a deadline of 300 ms: every operation returns in bounded time — with the status-derived
+// error at once, or with the context's when the deadline passes — and never a success.
+func (e *liveEnv) liveSwitchingProtocols(r *h.Run, fam, kind, proto string) {
+	c := &liveCall{r: r, mode: "C14", fam: fam, kind: kind, proto: proto, h2: false, prog: hprog{}}
+	c.id = fmt.Sprint(e.seq.Add(1))
+	c.obs = e.get(c.id)
+	c.cc = &countingClient{inner: e.srv1.Client()}
+	client := connect.NewClient[h.Raw, h.Raw](c.cc, e.srv1.URL+"/verif.Svc/Switch101", liveClientOpts(proto)...)
+	c.log = append(c.log, "[the peer answers 101 Switching Protocols and keeps the connection open; the call's context has a deadline of 300 ms]")
+	r.Eval(fam, fmt.Sprintf("switching-protocols/%s/%s", kind, proto))
+	ctx, cancel := context.WithTimeout(context.Background(), 300*time.Millisecond)
+	defer cancel()
+	start := time.Now()
+	judge := func(op string, err error, ok bool) {
+		if !ok {
+			return
+		}
+		if err == nil {
+			c.r.Fail(h.Failure{Key: "outcome/101-succeeded", Family: fam, What: op + " succeeded on a call answered with 101 Switching Protocols", Input: c.input()})
+		} else if connect.CodeOf(err) == 0 {
+			c.r.Fail(h.Failure{Key: "outcome/zero-code", Family: fam, What: op + " failed with the zero code", Input: c.input()})
+		}
+		if d := time.Since(start); d > 2*time.Second {
+			c.r.Fail(h.Failure{Key: "hang/" + op + "/past-deadline", Family: fam, What: fmt.Sprintf("%s returned %v after the call started, although its context's deadline was 300 ms away: it waited for the peer to close the connection", op, d.Round(100*time.Millisecond)), Input: c.input()})
+		}
+	}
+	switch kind {
+	case "unary":
+		err, ok := c.step("CallUnary", func() error { _, err := client.CallUnary(ctx, connect.NewRequest(bigMsg(16))); return err })
+		judge("CallUnary", err, ok)
+	case "server":
+		var st *connect.ServerStreamForClient[h.Raw]
+		err, ok := c.step("CallServerStream", func() error { var err error; st, err = client.CallServerStream(ctx, connect.NewRequest(bigMsg(16))); return err })
+		if ok && err == nil {
+			err, ok = c.step("Receive", func() error {
+				if st.Receive() {
+					return nil
+				}
+				if st.Err() == nil {
+					return io.EOF
+				}
+				return st.Err()
+			})
+			if ok && errors.Is(err, io.EOF) && connect.CodeOf(err) == connect.CodeUnknown && st.Err() == nil {
+				c.r.Fail(h.Failure{Key: "outcome/101-succeeded", Family: fam, What: "the stream of a call answered with 101 ended cleanly", Input: c.input()})
+			}
+			judge("Receive", err, ok)
+			_, ok = c.step("Close", func() error { return st.Close() })
+			judge("Close", errors.New("(not judged)"), ok)
+		} else {
+			judge("CallServerStream", err, ok)
+		}
+	default:
+		st := client.CallClientStream(ctx)
+		c.step("Send", func() error { return st.Send(bigMsg(16)) })
+		err, ok := c.step("CloseAndReceive", func() error { _, err := st.CloseAndReceive(); return err })
+		judge("CloseAndReceive", err, ok)
+	}
 	r.Sample(fam, c.input())
 }
 
